@@ -231,19 +231,15 @@ def collect(rep, pid, tier, seed):
     """runs the engine and records violations of `pid` in rep; returns the coverage dictionary"""
     cases = cases_for(pid, tier, seed)
     rows = run_impl(cases)
-    work = tlcrun.scratch_dir("diff")
-    try:
-        trace = os.path.join(work, "trace.ndjson")
-        write_ndjson(trace, rows)
-        res = tlcrun.run("DiffCases", "DiffCases.cfg", trace_file=trace, timeout=3000)
-    finally:
-        shutil.rmtree(work, ignore_errors=True)
-    if res["violated"]:
-        raise Machinery(f"design-level invariant {res['violated']} violated in DiffCases\n" + "\n".join(res["out"].splitlines()[-30:]))
-    verd = {l["i"]: l["v"] for l in res["lines"] if isinstance(l, dict) and "i" in l}
+    lines, results = tlcrun.run_chunked("DiffCases", "DiffCases.cfg", rows, chunk=8000, timeout=3000)
+    for res in results:
+        if res["violated"]:
+            raise Machinery(f"design-level invariant {res['violated']} violated in DiffCases\n" + "\n".join(l for l in res["out"].splitlines()[-30:] if not l.startswith('"{')))
+    verd = {l["i"]: l["v"] for l in lines if isinstance(l, dict) and "i" in l}
     if len(verd) != len(rows):
         raise Machinery(f"verdict lines {len(verd)} != events {len(rows)}")
-    rep.add_tlc(res)
+    for res in results:
+        rep.add_tlc(res)
     counts = {"ok": 0, "fl": 0, "drift": 0, "skip_illcond": 0, "fl_decided": 0, "sv_crosschecked": 0, "skipped_out_of_range": 0}
     nontrivial = set()
     nq = 0
